@@ -1,35 +1,11 @@
 (* C14, token grammar, bytes: what the recogniser's mode says about the next token, what the first byte of a text says
    about its first token, and the discipline [tail_ok] that makes a piece of output separable from any continuation the
    grammar accepts ([sep_from_tail]). *)
-From Soy Require Import Model.Bytes Model.JsGen Spec.JsSyntax Proofs.JsWfSplitBase Proofs.JsWfSplitNum Proofs.JsWfSplit.
+From Soy Require Import Model.Bytes Model.JsGen Spec.JsSyntax Spec.JsShape Proofs.JsWfSplitBase Proofs.JsWfSplitNum Proofs.JsWfSplit.
 From Coq Require Import ZifyBool ZifyNat ZifyN Lia.
 Open Scope N_scope.
 
 Definition is_word (t : jstoken) : bool := match t with TId _ | TKw _ _ | TNum _ => true | _ => false end.
-
-(* the next token is no identifier, keyword or number *)
-Definition word_free (m : mode) : bool :=
-  match m with
-  | MHave _ | MName _ | MImportClose | MParamsClose | MForClose => true
-  | MSeq (PT (TP _) :: _) _ _ | MSeq (PStr :: _) _ _ => true
-  | _ => false
-  end.
-(* the next token is not '.' *)
-Definition dot_free (m : mode) : bool :=
-  match m with
-  | MHave true | MImportClose | MParamsClose | MForClose => true
-  | MSeq (PT (TP p) :: _) _ _ => negb (punct_eqb p PDot)
-  | MSeq (PStr :: _) _ _ => true
-  | _ => false
-  end.
-Definition dot_mode (m : mode) : bool := match m with MDot | MNameDot _ => true | _ => false end.
-Definition want_mode (m : mode) : bool := match m with MWant _ => true | _ => false end.
-(* the next token is not ++, flagged or not *)
-Definition incr_free (m : mode) : bool :=
-  match m with
-  | MSeq (PT (TP PPlusPlus) :: _) _ _ | MSeq (PT (TNL _) :: _) _ _ => false
-  | _ => true
-  end.
 
 Lemma word_free_ok md m s t r : word_free m = true -> js_step md m s t = Some r -> is_word t = false.
 Proof.
@@ -76,7 +52,6 @@ Proof.
   change all_pairs with (flat_map (fun e => pairs (fst e)) punct_table). apply in_flat_map. exists e. split; [exact He|].
   apply adj_pairs. exact Ha.
 Qed.
-Definition open_punct (a : N) : bool := existsb (N.eqb a) [33;37;38;42;43;45;46;47;60;61;62;63;94;124].
 Lemma glue_cases a b : glue a b = true ->
   open_punct a = true /\ (a = 46 -> b = 46) /\ (a = 63 -> b = 63 \/ b = 46 \/ b = 61).
 Proof.
@@ -172,10 +147,6 @@ Proof.
 Qed.
 
 (* ---- the discipline ---- *)
-Definition tail_okb (a : N) (li : bool) (m' : mode) : bool :=
-  (negb (is_ident_part a) || (word_free m' && (negb li || dot_free m')))
-  && (negb (open_punct a) || ((a =? 46) && dot_mode m') || ((a =? 63) && want_mode m'))
-  && (negb (is_space a || (a =? 168) || (a =? 169)) || incr_free m').
 Definition tail_ok (bs : bstr) (ts : list jstoken) (m' : mode) : Prop :=
   match bs with [] => True | _ => tail_okb (last bs 0) (lastint ts) m' = true end.
 
